@@ -6,6 +6,7 @@ package refsem
 
 import (
 	"fmt"
+	"strconv"
 	"strings"
 
 	"verifharness/internal/gram"
@@ -60,6 +61,30 @@ func (rf *Ref) Eval(e *gram.Expr, pos int) []Res {
 				t = fmt.Sprintf("%s@%d-%d", e.S, pos, pos+len(e.S))
 			}
 			return []Res{{t, pos + len(e.S)}}
+		}
+		return nil
+	case gram.OpStr:
+		// a double-quoted literal: up to the first unescaped quote on the same line, valid for strconv.Unquote
+		if pos >= len(rf.In) || rf.In[pos] != '"' {
+			return nil
+		}
+		for q := pos + 1; q < len(rf.In); q++ {
+			switch rf.In[q] {
+			case '\\':
+				q++
+			case '\n', '\r':
+				return nil
+			case '"':
+				v, err := strconv.Unquote(rf.In[pos : q+1])
+				if err != nil {
+					return nil
+				}
+				t := ""
+				if !rf.EndsOnly {
+					t = fmt.Sprintf("STRING{%v}@%d-%d", v, pos, q+1)
+				}
+				return []Res{{t, q + 1}}
+			}
 		}
 		return nil
 	case gram.OpMark:
